@@ -167,6 +167,24 @@ Theorem C10_traceroute_ingress : forall mac t now p pp q k r a e,
 Proof. intros. now apply ingress_flag_answer. Qed.
 Print Assumptions C10_traceroute_ingress.
 
+(** (1') The same WITHOUT any assumption on the other flag bit (audit follow-up): the ingress
+    handler runs before anything looks at the egress flag, raises the request and clears only
+    its own bit; the packet handed to the slow path is the packet of the path with the other
+    bit of hop [k] as the sender set it.  (With both bits set the request is consumed here;
+    the egress interface is never asked.) *)
+Theorem C10_traceroute_ingress_any : forall mac t now p pp q k r a e,
+  good mac t p -> endpoints_ok t p pp = true -> all_unexpired now p = true ->
+  view p pp (nhops p) (length (pv_segs p)) q k k false -> (k < nhops p)%nat ->
+  (1 <= k)%nat -> crosses p (k - 1) = true ->
+  in_flag p k a e = true ->
+  process_scion (macq_of mac (a_key (as_of t p k))) (cfg_of (as_of t p k) r) now (InExt (tr_in p k))
+                (ScmpReturn.set_alerts k a e q) =
+  SlowPath SpAlertIngress 0
+           (ScmpReturn.set_alerts k (if cons p k then false else a) (if cons p k then e else false)
+                                  (render p pp k true)).
+Proof. intros. now apply ingress_flag_answer_any. Qed.
+Print Assumptions C10_traceroute_ingress_any.
+
 (** (2) The flag of the interface through which the AS is left: the router that owns that
     interface raises the request for the egress interface — the router that received the
     packet if it owns it (also after a segment change) ... *)
@@ -450,6 +468,22 @@ Proof.
   split; [apply view_render|]. split; [reflexivity|]. split; [right; repeat split; vm_compute; auto|].
   right. vm_compute. reflexivity.
 Qed.
+
+(** both bits of hop 1 set: 10/r0 answers for the ingress interface (1), the packet it hands over
+    keeps the other bit ([C10_traceroute_ingress_any] instantiated and run) *)
+Example C10_traceroute_example_both :
+  let m := ex_tr 1 true true in
+  snd (ScmpReturn.m_fwd m) = Stopped 10 0 KAlert /\
+  match ScmpReturn.m_stop m with
+  | Some (_, _, SlowPath rq eg out) =>
+    rq = SpAlertIngress /\ out = ScmpReturn.set_alerts 1 true false (render ex_prov ex_tr_pp 1 true)
+  | _ => False
+  end /\
+  match ScmpReturn.m_reply m with
+  | RouterScmp.SReply r => RouterScmp.r_l4 r = [131; 0; 87; 94] ++ ScmpReturn.tr_reply_body 4242 1 10 1
+  | _ => False
+  end.
+Proof. vm_compute. repeat split; reflexivity. Qed.
 
 (** KNOWN FINDING, refuted on the faithful model.  The sender (or time) makes hop field 1 —
     AS 10's hop field of the up segment, traversed against construction direction —
